@@ -93,6 +93,20 @@ package interfaces
 //@   ensures [view-change] istype(message, *ViewChangeMessage) ==> WireTag(content(result.Content)) == 3 && WirePayload(content(result.Content)) == content(dyn(message, *ViewChangeMessage).content.Raw()) && result.Block == dyn(message, *ViewChangeMessage).block
 //@   ensures [new-view] istype(message, *NewViewMessage) ==> WireTag(content(result.Content)) == 4 && WirePayload(content(result.Content)) == content(dyn(message, *NewViewMessage).content.Raw()) && result.Block == dyn(message, *NewViewMessage).block
 
+// the parser proper; ToConsensusMessage wraps it, reads every field once and turns a reader panic into nil (the engine
+// models recover() on the non-panicking executions it reasons about, where it returns nil)
+//@ func parseConsensusMessage
+//@   props C20 C12
+//@   safety iface
+//@   ensures [preprepare] WireTag(content(consensusMessage.Content)) == 0 ==> istype(result, *PreprepareMessage) && dyn(result, *PreprepareMessage).content != nil && content(dyn(result, *PreprepareMessage).content.Raw()) == WirePayload(content(consensusMessage.Content)) && dyn(result, *PreprepareMessage).block == consensusMessage.Block
+//@   ensures [prepare] WireTag(content(consensusMessage.Content)) == 1 ==> istype(result, *PrepareMessage) && dyn(result, *PrepareMessage).content != nil && content(dyn(result, *PrepareMessage).content.Raw()) == WirePayload(content(consensusMessage.Content))
+//@   ensures [commit] WireTag(content(consensusMessage.Content)) == 2 ==> istype(result, *CommitMessage) && dyn(result, *CommitMessage).content != nil && content(dyn(result, *CommitMessage).content.Raw()) == WirePayload(content(consensusMessage.Content))
+//@   ensures [view-change] WireTag(content(consensusMessage.Content)) == 3 ==> istype(result, *ViewChangeMessage) && dyn(result, *ViewChangeMessage).content != nil && content(dyn(result, *ViewChangeMessage).content.Raw()) == WirePayload(content(consensusMessage.Content)) && dyn(result, *ViewChangeMessage).block == consensusMessage.Block
+//@   ensures [new-view] WireTag(content(consensusMessage.Content)) == 4 ==> istype(result, *NewViewMessage) && dyn(result, *NewViewMessage).content != nil && content(dyn(result, *NewViewMessage).content.Raw()) == WirePayload(content(consensusMessage.Content)) && dyn(result, *NewViewMessage).block == consensusMessage.Block
+//@   ensures [a-parsed-message-came-from-a-raw-message] result != nil ==> consensusMessage != nil
+//@   ensures [unknown-arm] (WireTag(content(consensusMessage.Content)) < 0 || WireTag(content(consensusMessage.Content)) > 4) ==> result == nil
+
+
 //@ func ToConsensusMessage
 //@   props C20 C12
 //@   safety iface
